@@ -650,7 +650,7 @@ async fn client_protocol_handler(app: Rc<App>, msg: client::ProtocolMessage) -> 
 
 // --- sink operations with neutral results ---------------------------------------------
 
-#[derive(Clone, Debug, PartialEq, Eq, Hash, serde::Serialize, serde::Deserialize)]
+#[derive(Clone, Copy, Debug, PartialEq, Eq, Hash, serde::Serialize, serde::Deserialize)]
 pub enum SendKind {
     Qos0,
     Qos1,
